@@ -186,3 +186,30 @@ PROPS["C11"] = {
         ],
     },
 }
+
+PROPS["C12"] = {
+    "pkg": "c12", "level": "exploration",
+    "technique": "property-based differential testing (rapid) of Paillier Enc/Dec/Add/Mul/DecWithRandomness/ValidateCiphertexts and the MtA helpers against an independent "
+                 "math/big Paillier implementation, on a boundary lattice of plaintexts, nonces, ciphertext candidates and scalars, for keys with and without CRT acceleration",
+    "level_text": "Every library result is compared with a textbook big-integer implementation: exact ciphertext equality for encryption with a given nonce, exact integer "
+                  "plaintexts after decryption and after homomorphic operations (with symmetric wrap-around), refusal outside the plaintext range, ciphertext validity "
+                  "iff unit below N^2, and alpha+beta = a*b over the integers for ProveAffG / ProveAffP with the receiver's share decrypted by the reference.",
+    "level_note": "Six 2048-bit key pairs from the fixed prime pool. Random search biased to the boundaries named in the property; operations cost 10-1000 ms so volumes are moderate.",
+    "rule": "case = (operation, key kind, operand classes relative to the key: 0, +-1, +-(N-1)/2+-k, 2^k+-1, N+-k, N^2+-k, multiples of p/q, random); non-trivial iff some operand is "
+            "on the lattice (not random); distinct = distinct class keys",
+    "assumptions": ["reference Paillier is correct (textbook formulas, cross-checked by round trips)"],
+    "tiers": {
+        "quick": [
+            {"run": "^TestEncDec$", "checks": 320, "shards": 4},
+            {"run": "^TestHomomorphic$", "checks": 320, "shards": 4},
+            {"run": "^TestValidate$", "checks": 2400, "shards": 2},
+            {"run": "^TestMtA$", "checks": 96, "shards": 6},
+        ],
+        "thorough": [
+            {"run": "^TestEncDec$", "checks": 16000, "shards": 4},
+            {"run": "^TestHomomorphic$", "checks": 16000, "shards": 4},
+            {"run": "^TestValidate$", "checks": 100000, "shards": 2},
+            {"run": "^TestMtA$", "checks": 4000, "shards": 6},
+        ],
+    },
+}
